@@ -42,6 +42,9 @@ type SignerSpec struct {
 // TxSpec is a transaction as pure data.
 type TxSpec struct {
 	Msgs     []sdk.Msg    `json:"-"`
+	// SignedMsgs, when set, are the messages the signatures are made over; the transaction
+	// that is encoded carries Msgs with those signatures (content replaced after signing).
+	SignedMsgs []sdk.Msg `json:"-"`
 	Signers  []SignerSpec `json:"signers"`
 	Fee      sdk.Coins    `json:"fee,omitempty"`
 	FeePayer string       `json:"fee_payer,omitempty"`
@@ -63,7 +66,11 @@ func (c *Chain) BuildTx(spec TxSpec) (raw []byte, err error) {
 	}()
 	txc := c.App.TxConfig()
 	b := txc.NewTxBuilder()
-	if err := b.SetMsgs(spec.Msgs...); err != nil {
+	signed := spec.Msgs
+	if len(spec.SignedMsgs) > 0 {
+		signed = spec.SignedMsgs
+	}
+	if err := b.SetMsgs(signed...); err != nil {
 		return nil, err
 	}
 	gas := spec.Gas
@@ -128,6 +135,11 @@ func (c *Chain) BuildTx(spec TxSpec) (raw []byte, err error) {
 			}
 		}
 		sigs[i].Data = &signing.SingleSignatureData{SignMode: s.mode, Signature: sig}
+	}
+	if len(spec.SignedMsgs) > 0 {
+		if err := b.SetMsgs(spec.Msgs...); err != nil {
+			return nil, err
+		}
 	}
 	if err := b.SetSignatures(sigs...); err != nil {
 		return nil, err
